@@ -867,7 +867,7 @@ var FieldWriteMap = `
 {{- $isBaseVal := .ValCtx.Type | IsBaseType -}}
 {{- $curFieldMask := .FieldMask -}}
 	{{- if and Features.WithFieldMask (or $isStrKey $isIntKey) }}
-	if !{{.FieldMask}}.All() {
+	if !{{.FieldMask}}.All() || ({{.FieldMask}} != nil && {{.FieldMask}}.IsBlack()) {
 		l := len({{.Target}})
 		for k := range {{.Target}} {
 			{{- if $isIntKey}}
@@ -891,6 +891,20 @@ var FieldWriteMap = `
 			{{- .KeyCtx.Type | GetTypeIDConstant -}}
 			, thrift.{{- .ValCtx.Type | GetTypeIDConstant -}}
 			, len({{.Target}})); err != nil {
+			return err
+		}
+	}
+	{{- else if Features.WithFieldMask}}
+	{
+		// keys are neither integers nor strings: the mask selects all entries or none
+		l := len({{.Target}})
+		if _, ex := {{.FieldMask}}.Int(0); !ex {
+			l = 0
+		}
+		if err := oprot.WriteMapBegin(thrift.
+			{{- .KeyCtx.Type | GetTypeIDConstant -}}
+			, thrift.{{- .ValCtx.Type | GetTypeIDConstant -}}
+			, l); err != nil {
 			return err
 		}
 	}
@@ -940,7 +954,7 @@ var FieldWriteSet = `
 {{- $isBaseVal := .ValCtx.Type | IsBaseType -}}
 {{- $curFieldMask := .FieldMask -}}
 		{{- if Features.WithFieldMask}}
-		if !{{.FieldMask}}.All() {
+		if !{{.FieldMask}}.All() || ({{.FieldMask}} != nil && {{.FieldMask}}.IsBlack()) {
 			l := len({{.Target}})
 			for i, n := 0, l; i < n; i++ { // n: the loop must not shrink its own bound
 				if _, ex := {{.FieldMask}}.Int(i); !ex {
@@ -1014,7 +1028,7 @@ var FieldWriteList = `
 {{- $isBaseVal := .ValCtx.Type | IsBaseType -}}
 {{- $curFieldMask := .FieldMask -}}
 	{{- if Features.WithFieldMask}}
-	if !{{.FieldMask}}.All() {
+	if !{{.FieldMask}}.All() || ({{.FieldMask}} != nil && {{.FieldMask}}.IsBlack()) {
 		l := len({{.Target}})
 		for i, n := 0, l; i < n; i++ { // n: the loop must not shrink its own bound
 			if _, ex := {{.FieldMask}}.Int(i); !ex {
